@@ -559,10 +559,12 @@ def run_vec_runtime(res, tier, sc, drv):
     if not os.path.exists(os.path.join(od, "all.wat")):
         raise Inconclusive("runtime probe program was not compiled")
     mod = wat.Module(open(os.path.join(od, "all.wat")).read())
-    bodies = ts_prolog_bodies(open(os.path.join(od, "all.ts")).read())
-    for fn, expect in TS_VEC_EXPECT.items():
-        if bodies.get(fn) != expect:
-            raise Inconclusive("the TypeScript prelude of %s changed (%r): the JS model of checks/c04.py no longer describes it" % (fn, bodies.get(fn)))
+    ts_text = open(os.path.join(od, "all.ts")).read()
+    bodies = ts_prolog_bodies(ts_text)
+    # the reference obligations below compare the WAT helpers with a hand-written reading of the prelude and are only
+    # meaningful for the prelude text they were written for; the E-JS comparison further down executes whatever text
+    # the compiler emits now, so a changed prelude is decided by E-JS alone
+    changed_prelude = sorted(fn for fn, expect in TS_VEC_EXPECT.items() if bodies.get(fn) != expect)
     known = load_known("C04")
     bounds = {"forks": 40, "steps": 20000, "paths": 400, "seconds": 60}
     stats = {"obligations": 0, "discharged": 0, "cases": 0}
@@ -612,7 +614,8 @@ def run_vec_runtime(res, tier, sc, drv):
         ex.deadline = time.time() + bounds["seconds"]
         return ex, ex.run(fname, args, pre, None)
 
-    for n in range(4):
+    ejs = _vec_ejs_compare(res, ts_text, mkvec, run, state_of, decide, known, known_hit, stats)
+    for n in (range(4) if not changed_prelude else ()):
         for cap in (n, n + 2):
             stats["cases"] += 1
             # ---- length / capacity
@@ -686,7 +689,7 @@ def run_vec_runtime(res, tier, sc, drv):
                 else:
                     oblige("__Vec$push", p_.pc, z3.BoolVal(True), "push(v) does not return (%s: %s) for n=%d capacity=%d" % (p_.outcome, p_.why, n, cap))
     # ---- eq on two distinct vectors of every pair of lengths
-    for na in range(4):
+    for na in (range(4) if not changed_prelude else ()):
         for nb in range(4):
             stats["cases"] += 1
             a, ea, sa = mkvec("a", na, na + (nb % 2))
@@ -701,12 +704,12 @@ def run_vec_runtime(res, tier, sc, drv):
                 else:
                     oblige("__Vec$eq", p_.pc, z3.BoolVal(True), "eq of vectors of lengths %d and %d does not return (%s: %s)" % (na, nb, p_.outcome, p_.why))
     a, ea, sa = mkvec("a", 2, 3)
-    ex, ps = run("__Vec$eq", [a, a], sa)
+    ex, ps = run("__Vec$eq", [a, a], sa) if not changed_prelude else (None, [])
     for p_ in ps:
         oblige("__Vec$eq", p_.pc, z3.BoolVal(True) if p_.outcome != "return" else p_.value.t != BV(1), "eq of a vector with itself")
     # ---- constructors
     v = I31(z3.BitVec("v", 32))
-    ex, ps = run("__Vec$of", [I31(BV(0)), v], [v.t == wat.sext31(v.t)])
+    ex, ps = run("__Vec$of", [I31(BV(0)), v], [v.t == wat.sext31(v.t)]) if not changed_prelude else (None, [])
     for p_ in ps:
         ok = p_.outcome == "return" and isinstance(p_.value, Obj)
         if ok:
@@ -714,14 +717,190 @@ def run_vec_runtime(res, tier, sc, drv):
             oblige("__Vec$of", p_.pc, z3.Or(ln.t != BV(1), after[0].t != v.t if after and isinstance(after[0], I31) else z3.BoolVal(True)), "Vec.of(v)")
         else:
             oblige("__Vec$of", p_.pc, z3.BoolVal(True), "Vec.of(v) does not return a vector")
-    for fname, args in (("__Vec$empty", [I31(BV(0))]), ("__Vec$withCapacity", [I31(BV(0)), Int(BV(5))])):
+    for fname, args in ((("__Vec$empty", [I31(BV(0))]), ("__Vec$withCapacity", [I31(BV(0)), Int(BV(5))])) if not changed_prelude else ()):
         ex, ps = run(fname, args, [])
         for p_ in ps:
             ok = p_.outcome == "return" and isinstance(p_.value, Obj)
             oblige(fname, p_.pc, z3.BoolVal(True) if not ok else state_of(ex, p_, p_.value)[0].t != BV(0), "%s is not the empty vector" % fname)
     for kid, short in sorted(known_hit.items()):
         res.known("%s %s" % (kid, short))
-    return {"vec_runtime": stats, "vec_runtime_functions": sorted(TS_VEC_EXPECT)}
+    return {"vec_runtime": stats, "vec_runtime_functions": sorted(TS_VEC_EXPECT), "vec_runtime_ejs": ejs,
+            "vec_prelude_differs_from_reference": changed_prelude}
+
+
+def _vec_ejs_compare(res, ts_text, mkvec, run, state_of, decide, known, known_hit, stats):
+    """E-JS x E-W: every Vec function of the TypeScript prelude, as emitted by the real compiler, is executed
+    symbolically by vlib/jsmini.py and compared path by path with the symbolic execution of the WAT helper on the same
+    vector (every length <= 3, two capacities, symbolic elements / index / stored value).  Outcome class (return vs
+    bounds panic), returned element or number, and the vector afterwards (length and elements) must agree."""
+    import json
+    import subprocess
+    from vlib import jsmini, wat, ts2js
+    from vlib.irsym import Int, I31, Obj, BV
+    lines = {}
+    for ln in ts_text.split("\n"):
+        m = re.match(r"^const (__Vec\$\w+) = ", ln)
+        if m:
+            lines[m.group(1)] = ln
+    out = {"functions": [], "pairs": 0, "obligations": 0, "discharged": 0, "js_paths": 0, "wasm_paths": 0, "node_replays": 0}
+    missing = [f for f in TS_VEC_EXPECT if f not in lines]
+    if missing:
+        raise Inconclusive("the TypeScript prelude no longer defines %s" % ", ".join(missing))
+    parsed = {}
+    for fn in TS_VEC_EXPECT:
+        try:
+            parsed[fn] = jsmini.parse_arrow(lines[fn])
+        except jsmini.Unsupported as e:
+            raise Inconclusive("E-JS cannot parse the TypeScript prelude of %s (%s): %s" % (fn, lines[fn][:120], e))
+
+    def jsrun(fn, args, arrays, pre):
+        _, params, body, _ = parsed[fn]
+        exj = jsmini.Exec(params, body)
+        try:
+            return exj.run(args, arrays, pre)
+        except jsmini.Unsupported as e:
+            raise Inconclusive("E-JS cannot execute the TypeScript prelude of %s: %s" % (fn, e))
+
+    def num(v):
+        """numeric term of a value of either side, None when it is not a number"""
+        if isinstance(v, (I31, Int)):
+            return v.t
+        if isinstance(v, jsmini.Num):
+            return v.t
+        return None
+
+    def differs(fn, kind, p_, q_, wvec, jarr, ex):
+        """z3 formula: the two paths, taken together, show different behaviour"""
+        w_ret = p_.outcome == "return"
+        if q_.outcome == "oob-store":
+            return z3.BoolVal(True)
+        if w_ret != (q_.outcome == "return"):
+            return z3.BoolVal(True)
+        if not w_ret:
+            return z3.BoolVal(False)          # both end in the bounds panic
+        wrong = []
+        if kind in ("number", "element"):
+            a_, b_ = num(p_.value), num(q_.value)
+            wrong.append(z3.BoolVal(True) if a_ is None or b_ is None else a_ != b_)
+        wv = p_.value if kind == "vector" else wvec
+        jv = q_.value if kind == "vector" else jarr
+        if wv is not None:
+            if not isinstance(wv, Obj) or not isinstance(jv, jsmini.Arr):
+                return z3.BoolVal(True)
+            ln, after = state_of(ex, p_, wv)
+            jelems = q_.arrays[jv.name]
+            wrong.append(ln.t != BV(len(jelems)))
+            for k_, je in enumerate(jelems):
+                if after is None or k_ >= len(after):
+                    wrong.append(ln.t == BV(len(jelems)))      # cannot see the slot: differs if the lengths agree
+                    continue
+                a_, b_ = num(after[k_]), num(je)
+                wrong.append(z3.And(ln.t == BV(len(jelems)), z3.BoolVal(True) if a_ is None or b_ is None else a_ != b_))
+        return z3.Or(*wrong) if wrong else z3.BoolVal(False)
+
+    def node_confirms(fn, model, jargs_desc, q_):
+        """replay the TypeScript side of a witness on the real prelude under node: the outcome E-JS predicts for the
+        concrete arguments must be what node does"""
+        g = lambda t: z3.simplify(model.eval(t, model_completion=True)).as_signed_long()
+        def lit(d):
+            if d[0] == "num":
+                return str(g(d[1]))
+            return "[" + ", ".join(str(g(x)) for x in d[1]) + "]"
+        args_js = ", ".join("a%d" % k_ for k_ in range(len(jargs_desc)))
+        decl = "".join("const a%d = %s; " % (k_, lit(d)) for k_, d in enumerate(jargs_desc))
+        prog = ts2js.strip(lines[fn]) + "\n" + decl + "let r; try { r = ['return', %s(%s)]; } catch (e) { r = ['throw']; }\nconsole.log(JSON.stringify([r, %s]));" % (
+            fn, args_js, ", ".join("a%d" % k_ for k_, d in enumerate(jargs_desc) if d[0] == "arr") or "null")
+        try:
+            pr = subprocess.run(["node", "-e", prog], capture_output=True, text=True, timeout=30)
+            got = json.loads(pr.stdout.strip().split("\n")[-1])
+        except Exception as e:
+            return None, "node replay failed: %r" % (e,)
+        out["node_replays"] += 1
+        want = q_.outcome if q_.outcome != "oob-store" else "return"
+        return got[0][0] == want, {"node": got, "ejs_outcome": q_.outcome, "program": prog}
+
+    def compare(fn, kind, wargs, wpre, jargs, jarrays, jargs_desc, wvec=None, jarr=None, what=""):
+        ex, wps = run(fn, wargs, wpre)
+        jps = jsrun(fn, jargs, jarrays, wpre)
+        out["wasm_paths"] += len(wps)
+        out["js_paths"] += len(jps)
+        if not wps or not jps:
+            res.inconc("E-JS comparison of %s: no path on one side (%s)" % (fn, what))
+            return
+        met = 0
+        for p_ in wps:
+            for q_ in jps:
+                d = differs(fn, kind, p_, q_, wvec, jarr, ex)
+                out["obligations"] += 1
+                stats["obligations"] += 1
+                both, _m = decide(list(p_.pc) + list(q_.pc))
+                if both == z3.unsat:
+                    out["discharged"] += 1
+                    stats["discharged"] += 1
+                    continue
+                met += 1
+                r, m = decide(list(p_.pc) + list(q_.pc) + [d])
+                if r == z3.unsat:
+                    out["discharged"] += 1
+                    stats["discharged"] += 1
+                elif r == z3.sat:
+                    kn = [k for k in known if k.get("function") == fn]
+                    if kn:
+                        known_hit[kn[0]["id"]] = kn[0]["short"]
+                        continue
+                    ok, info = node_confirms(fn, m, jargs_desc, q_)
+                    if ok is not True:
+                        res.inconc("E-JS witness for %s does not replay on the real prelude under node: %s" % (fn, str(info)[:300]))
+                        continue
+                    res.violation("Vec runtime: %s under WebAssembly differs from the TypeScript prelude `%s` (%s): WebAssembly %s, TypeScript %s"
+                                  % (fn, parsed[fn][3][:100], what, p_.outcome if p_.outcome != "return" else "returns", q_.outcome + (" (%s)" % q_.why if q_.why else "")),
+                                  {"property": "C04", "function": fn, "case": what, "model": str(m)[:600], "replay": info})
+                    return
+                else:
+                    res.inconc("E-JS comparison of %s: solver unknown" % fn)
+        out["pairs"] += met
+
+    i = z3.BitVec("i", 32)
+    for n in range(4):
+        for cap in (n, n + 2):
+            case = "length %d, capacity %d" % (n, cap)
+
+            def mk():
+                vec, elems, side = mkvec("a", n, cap)
+                arr = jsmini.Arr("a")
+                return vec, elems, side, arr, {"a": [jsmini.Num(e.t) for e in elems]}, ("arr", [e.t for e in elems])
+
+            vec, elems, side, arr, arrays, adesc = mk()
+            compare("__Vec$length", "number", [vec], side, [arr], arrays, [adesc], what=case)
+            vec, elems, side, arr, arrays, adesc = mk()
+            compare("__Vec$capacity", "number", [vec], side, [arr], arrays, [adesc], what=case)
+            vec, elems, side, arr, arrays, adesc = mk()
+            compare("__Vec$get", "element", [vec, Int(i)], side, [arr, jsmini.Num(i)], arrays, [adesc, ("num", i)], what=case + ", any index")
+            v = I31(z3.BitVec("v", 32))
+            vpre = [v.t == wat.sext31(v.t)]
+            vec, elems, side, arr, arrays, adesc = mk()
+            compare("__Vec$set", "state", [vec, Int(i), v], side + vpre, [arr, jsmini.Num(i), jsmini.Num(v.t)], arrays, [adesc, ("num", i), ("num", v.t)],
+                    wvec=vec, jarr=arr, what=case + ", any index and value")
+            vec, elems, side, arr, arrays, adesc = mk()
+            compare("__Vec$pop", "element", [vec], side, [arr], arrays, [adesc], wvec=vec, jarr=arr, what=case)
+            vec, elems, side, arr, arrays, adesc = mk()
+            compare("__Vec$push", "state", [vec, v], side + vpre, [arr, jsmini.Num(v.t)], arrays, [adesc, ("num", v.t)], wvec=vec, jarr=arr, what=case + ", any value")
+    for na in range(4):
+        for nb in range(4):
+            a, ea, sa = mkvec("a", na, na + (nb % 2))
+            b, eb, sb = mkvec("b", nb, nb + 1)
+            compare("__Vec$eq", "number", [a, b], sa + sb, [jsmini.Arr("a"), jsmini.Arr("b")],
+                    {"a": [jsmini.Num(e.t) for e in ea], "b": [jsmini.Num(e.t) for e in eb]}, [("arr", [e.t for e in ea]), ("arr", [e.t for e in eb])],
+                    what="two vectors of lengths %d and %d" % (na, nb))
+    a, ea, sa = mkvec("a", 2, 3)
+    ja = jsmini.Arr("a")
+    compare("__Vec$eq", "number", [a, a], sa, [ja, ja], {"a": [jsmini.Num(e.t) for e in ea]}, [("arr", [e.t for e in ea])] * 2, what="a vector and itself")
+    v = I31(z3.BitVec("v", 32))
+    compare("__Vec$of", "vector", [I31(BV(0)), v], [v.t == wat.sext31(v.t)], [jsmini.Num(BV(0)), jsmini.Num(v.t)], {}, [("num", BV(0)), ("num", v.t)], what="Vec.of(v)")
+    compare("__Vec$empty", "vector", [I31(BV(0))], [], [jsmini.Num(BV(0))], {}, [("num", BV(0))], what="Vec.empty()")
+    compare("__Vec$withCapacity", "vector", [I31(BV(0)), Int(BV(5))], [], [jsmini.Num(BV(0)), jsmini.Num(BV(5))], {}, [("num", BV(0)), ("num", BV(5))], what="Vec.withCapacity(5)")
+    out["functions"] = sorted(parsed)
+    return out
 
 
 class _FakeState:
@@ -742,3 +921,131 @@ def _final_elems(ex, arr, pth):
     if isinstance(arr, wat.Arr):
         return arr.elems
     return None
+
+
+# ---- string constants: the same literal under both back ends --------------------------------------------------
+# Literals are built from tokens, so every escape sequence is well formed by construction (lexer.rs,
+# string_has_valid_escape: \t \v \0 \b \f \n \r \" and \\).
+STR_TOKENS = ["a", "1", " ", "`", "$", "{", "}", "'", "\\t", "\\n", "\\r", "\\0", "\\b", "\\f", "\\v", '\\"', "\\\\", "\t", "\u00e9"]
+STR_NODE = r"""
+const items = JSON.parse(require('fs').readFileSync(process.argv[2], 'utf8'));
+const out = [];
+for (const src of items) {
+  try { const v = new Function('return (' + src + ');')(); out.push({ok: typeof v === 'string', bytes: Array.from(Buffer.from(String(v), 'utf8'))}); }
+  catch (e) { out.push({ok: false, error: String(e).slice(0, 120)}); }
+}
+console.log(JSON.stringify(out));
+"""
+
+
+def _wat_string_bytes(text):
+    out = bytearray()
+    i = 0
+    while i < len(text):
+        c = text[i]
+        if c == "\\":
+            nxt = text[i + 1]
+            if nxt in "0123456789abcdefABCDEF" and text[i + 2] in "0123456789abcdefABCDEF":
+                out.append(int(text[i + 1:i + 3], 16))
+                i += 3
+                continue
+            out += {"n": b"\n", "t": b"\t", "r": b"\r", '"': b'"', "'": b"'", "\\": b"\\"}[nxt]
+            i += 2
+            continue
+        out += c.encode("utf8")
+        i += 1
+    return bytes(out)
+
+
+def run_string_constants(res, tier, sc, drv):
+    """C04, string constants: every literal made of <= 2 (quick) / <= 3 (thorough) tokens - plain characters, the
+    characters that are special inside a JavaScript template literal, every escape sequence of the language, a raw tab
+    and a non-ASCII character - is compiled by the real compiler; the value JavaScript gives the emitted TypeScript
+    literal (evaluated by node) must be the byte string the WebAssembly module builds from its data segment.
+    This is a gate over concrete literals (exhaustive up to the stated length), not a solver verdict."""
+    import itertools
+    import json
+    import os
+    import subprocess
+    depth = 2 if tier == "quick" else 3
+    lits = [""]
+    for n in range(1, depth + 1):
+        lits += ["".join(t) for t in itertools.product(STR_TOKENS, repeat=n)]
+    d = os.path.join(sc.root, "c04str")
+    os.makedirs(d, exist_ok=True)
+    stats = {"literals": len(lits), "max_tokens": depth, "tokens": len(STR_TOKENS), "constants_compared": 0, "batches": 0, "rejected_literals": 0,
+             "ts_not_evaluable": 0, "values_differ": 0}
+    first = {}
+
+    def compile_batch(batch):
+        body = "".join('    let _ = Process.println("%s");\n' % l for l in batch)
+        path = os.path.join(d, "L.sam")
+        open(path, "w", encoding="utf8").write("class Main {\n  function main(): unit = {\n%s  }\n}\n" % body)
+        out = os.path.join(d, "out")
+        p = drv.call(["compile", out, "L", "L=" + path], check=False, timeout=600)
+        try:
+            st_ = json.loads(p.stdout.strip().split("\n")[-1])
+        except Exception:
+            raise Inconclusive("string constants: the driver gave no verdict: %s" % (p.stdout + p.stderr)[-300:])
+        return st_, out
+
+    def check_batch(batch):
+        st_, out = compile_batch(batch)
+        if st_.get("status") == "rejected":
+            if len(batch) == 1:
+                stats["rejected_literals"] += 1
+                return
+            mid = len(batch) // 2
+            check_batch(batch[:mid])
+            check_batch(batch[mid:])
+            return
+        if st_.get("status") != "ok":
+            res.violation("string constants: the compiler answers %s for a program that only prints string literals" % st_.get("status"),
+                          {"property": "C04", "literals": batch[:20]})
+            return
+        stats["batches"] += 1
+        ts = open(os.path.join(out, "L.ts"), encoding="utf8").read()
+        wat_text = open(os.path.join(out, "__all__.wat"), encoding="utf8").read()
+        ts_lits = {}
+        for m in re.finditer(r"^const GLOBAL_STRING_(\d+): _Str = \[0, (`.*?`) as unknown as number\];$", ts, re.M | re.S):
+            ts_lits[int(m.group(1))] = m.group(2)
+        dm = re.search(r'^\(data \$d2 "(.*)"\)$', wat_text, re.M)
+        segs = {int(m.group(1)): (int(m.group(2)), int(m.group(3)))
+                for m in re.finditer(r"\(global\.set \$GLOBAL_STRING_(\d+) \(array\.new_data \$_Str \$d2 \(i32\.const (\d+)\) \(i32\.const (\d+)\)\)\)", wat_text)}
+        if not ts_lits or dm is None or sorted(ts_lits) != sorted(segs):
+            raise Inconclusive("string constants: the emitted TypeScript / WebAssembly text no longer has the expected shape (%d TS constants, %d wasm constants)" % (len(ts_lits), len(segs)))
+        data = _wat_string_bytes(dm.group(1))
+        order = sorted(ts_lits)
+        items = os.path.join(d, "items.json")
+        json.dump([ts_lits[i] for i in order], open(items, "w"))
+        script = os.path.join(d, "eval.js")
+        open(script, "w").write(STR_NODE)
+        pr = subprocess.run(["node", script, items], capture_output=True, text=True, timeout=120)
+        try:
+            vals = json.loads(pr.stdout.strip().split("\n")[-1])
+        except Exception:
+            raise Inconclusive("string constants: node did not evaluate the literals: %s" % (pr.stdout + pr.stderr)[-300:])
+        for i, v in zip(order, vals):
+            off, ln = segs[i]
+            wasm_bytes = list(data[off:off + ln])
+            stats["constants_compared"] += 1
+            if not v.get("ok"):
+                stats["ts_not_evaluable"] += 1
+                first.setdefault("ts_not_evaluable", {"typescript_literal": ts_lits[i], "node": v.get("error"), "wasm_bytes": wasm_bytes})
+            elif v["bytes"] != wasm_bytes:
+                stats["values_differ"] += 1
+                first.setdefault("values_differ", {"typescript_literal": ts_lits[i], "typescript_value_utf8": v["bytes"], "wasm_bytes": wasm_bytes})
+
+    for k in range(0, len(lits), 150):
+        check_batch(lits[k:k + 150])
+    if "ts_not_evaluable" in first:
+        w = first["ts_not_evaluable"]
+        res.violation("string constants: %d literal(s) are emitted as TypeScript that JavaScript cannot evaluate, e.g. %s (%s); WebAssembly holds the bytes %s"
+                      % (stats["ts_not_evaluable"], w["typescript_literal"], w["node"], w["wasm_bytes"]), {"property": "C04", "class": "ts_not_evaluable", **w})
+    if "values_differ" in first:
+        w = first["values_differ"]
+        res.violation("string constants: %d literal(s) denote different strings under the two back ends, e.g. %s is %s (UTF-8) under TypeScript and %s under WebAssembly"
+                      % (stats["values_differ"], w["typescript_literal"], w["typescript_value_utf8"], w["wasm_bytes"]), {"property": "C04", "class": "values_differ", **w})
+    if stats["constants_compared"] < len(STR_TOKENS):
+        res.inconc("string constants: only %d constants were compared" % stats["constants_compared"])
+    return {"string_constants": stats}
